@@ -1,11 +1,12 @@
 import T4V.Model.Surface
+import T4V.Model.Transform
 /-!
 # Macrobodies (model): `Kernel/Surface/MacroBodies.py` + `to_surfaces_macro` + `SurfaceCollection.join`
 
 `macroParts` = body ↦ facet list `(mnemonic, parameters, side)` in MCNP's facet order; `convertMacro` =
 each facet converted like an ordinary card, its side multiplied in.  Modelled: RPP, BOX, SPH, RCC,
-RHP/HEX with 15 entries, WED, TRC.  REC, ELL, ARB and the 9-entry RHP go through `transformation_quad`,
-`rotate` and the ARB vertex tables and are covered by the spec monitor only.
+RHP/HEX with 9 and 15 entries, WED, TRC, REC with 10 and 12 entries, ELL in both parameterisations and ARB
+(vertex table, facet descriptors, orientation by the centroid).
 -/
 namespace T4V
 
@@ -17,6 +18,32 @@ variable {α : Type} [Add α] [Sub α] [Mul α] [Div α] [Neg α] [OfNat α 0] [
 def planeNP (n pt : V3 α) : List α := [n.x, n.y, n.z, n.dot pt]
 
 abbrev Part (α : Type) := String × List α × Int
+
+/-- `renorm(vec, norm)`: `rescale(norm / mag(vec), vec)`; a zero vector raises `ZeroDivisionError` -/
+def renorm? (v : V3 α) (norm : α := 1) : Option (V3 α) :=
+  let m := Transc.sqrt (v.dot v)
+  if m == 0 then none else some (V3.smul (norm / m) v)
+
+/-- `rotate(vec, axis, angle)` (Rodrigues) -/
+def rotateV (v k : V3 α) (angle : α) : V3 α :=
+  let c := Transc.cos angle; let s := Transc.sin angle
+  let t1 := V3.smul c v
+  let t2 := V3.smul s (k.cross v)
+  let t3 := V3.smul ((1 - c) * k.dot v) k
+  ⟨(0 + t1.x + t2.x) + t3.x, (0 + t1.y + t2.y) + t3.y, (0 + t1.z + t2.z) + t3.z⟩
+
+def inv? (a : α) : Option α := if a == 0 then none else some (1 / a)
+
+/-- the elliptic cylinder / spheroid in its own frame moved to the lab frame: `transformation_quad` with
+the rows `(u1, u2, u3)` and the origin `o` -/
+def quadInFrame (q : List α) (o u1 u2 u3 : V3 α) : Option (List α) := transformQuad q ⟨o, ⟨u1, u2, u3⟩⟩
+
+/-- digits of a facet descriptor (`parse_facet`): zero digits are skipped, vertex numbers are 1-based -/
+def facetDigits (n : Nat) : List Nat :=
+  let rec go : Nat → Nat → List Nat → List Nat
+    | 0, _, acc => acc
+    | fuel + 1, m, acc => if m == 0 then acc else go fuel (m / 10) (if m % 10 == 0 then acc else (m % 10 - 1) :: acc)
+  go 20 n []
 
 def macroParts (mn : String) (ps : List α) : Option (List (Part α)) :=
   match mn, ps with
@@ -62,12 +89,88 @@ def macroParts (mn : String) (ps : List α) : Option (List (Part α)) :=
       let u := V3.smul (1 / hl) h
       some [("k", [apex.x, apex.y, apex.z, tanA, u.x, u.y, u.z], 1), ("p", planeNP h (v.add h), 1),
             ("p", planeNP h v, -1)]
+  | "rhp", [vx, vy, vz, hx, hy, hz, rx, ry, rz] =>
+      let v : V3 α := ⟨vx, vy, vz⟩; let h : V3 α := ⟨hx, hy, hz⟩; let r : V3 α := ⟨rx, ry, rz⟩
+      match renorm? h with
+      | none => none
+      | some uh =>
+        let s := rotateV r uh (Transc.pi / (1 + 1 + 1))
+        let t := rotateV r uh (two * Transc.pi / (1 + 1 + 1))
+        some [("p", planeNP r (v.add r), 1), ("p", planeNP r (v.sub r), -1),
+              ("p", planeNP s (v.add s), 1), ("p", planeNP s (v.sub s), -1),
+              ("p", planeNP t (v.add t), 1), ("p", planeNP t (v.sub t), -1),
+              ("p", planeNP h (v.add h), 1), ("p", planeNP h v, -1)]
+  | "rec", [vx, vy, vz, hx, hy, hz, ax, ay, az, bx, by', bz] =>
+      let v : V3 α := ⟨vx, vy, vz⟩; let h : V3 α := ⟨hx, hy, hz⟩
+      let a : V3 α := ⟨ax, ay, az⟩; let b : V3 α := ⟨bx, by', bz⟩
+      do
+        let ia ← inv? (a.dot a); let ib ← inv? (b.dot b)
+        let ua ← renorm? a; let ub ← renorm? b; let uh ← renorm? h
+        let q ← quadInFrame [ia, ib, 0, 0, 0, 0, 0, 0, 0, -1] v ua ub uh
+        pure [("gq", q, 1), ("p", planeNP h (v.add h), 1), ("p", planeNP h v, -1)]
+  | "rec", [vx, vy, vz, hx, hy, hz, ax, ay, az, bl] =>
+      let v : V3 α := ⟨vx, vy, vz⟩; let h : V3 α := ⟨hx, hy, hz⟩; let a : V3 α := ⟨ax, ay, az⟩
+      do
+        let b ← renorm? (h.cross a) bl
+        let ia ← inv? (a.dot a); let ib ← inv? (bl * bl)
+        let ua ← renorm? a; let ub ← renorm? b; let uh ← renorm? h
+        let q ← quadInFrame [ia, ib, 0, 0, 0, 0, 0, 0, 0, -1] v ua ub uh
+        pure [("gq", q, 1), ("p", planeNP h (v.add h), 1), ("p", planeNP h v, -1)]
+  | "ell", [a1, a2, a3, b1, b2, b3, last] =>
+      do
+        let (c, va, min2) ←
+          if (0:α) < last then
+            let f1 : V3 α := ⟨a1, a2, a3⟩; let f2 : V3 α := ⟨b1, b2, b3⟩
+            let c := V3.smul (1 / two) (f1.add f2)
+            let rel := f1.sub c
+            (renorm? rel last).map fun va =>
+              (c, va, last * last - (last - Transc.sqrt (rel.dot rel)) * (last - Transc.sqrt (rel.dot rel)))
+          else some ((⟨a1, a2, a3⟩ : V3 α), (⟨b1, b2, b3⟩ : V3 α), last * last)
+        let ua ← renorm? va
+        let tol : α := 1 / (((1:α)+1+1+1+1) * (1+1) * (((1:α)+1+1+1+1) * (1+1)) * (((1:α)+1+1+1+1) * (1+1)))   -- 1e-3
+        let pick (e : V3 α) (comp : α) : Option (V3 α) := renorm? (e.sub (V3.smul comp ua))
+        let ub ←
+          if tol < fabs (1 - fabs ua.x) then pick ⟨1, 0, 0⟩ ua.x
+          else if tol < fabs (1 - fabs ua.y) then pick ⟨0, 1, 0⟩ ua.y
+          else pick ⟨0, 0, 1⟩ ua.z
+        let uc := ua.cross ub
+        let ia ← inv? (va.dot va); let im ← inv? min2
+        let q ← quadInFrame [ia, im, im, 0, 0, 0, 0, 0, 0, -1] c ua ub uc
+        pure [("gq", q, 1)]
   | _, _ => none
+
+/-- `arb`: eight vertices, six facet descriptors (as numbers); `toNat` reads a descriptor -/
+def arbParts (e1 e2 : α) (toNat : α → Nat) (ps : List α) : Option (List (Part α)) :=
+  if ps.length != 30 then none else
+  let vs : List (V3 α) := (List.range 8).filterMap fun i =>
+    match ps.drop (3 * i) with
+    | x :: y :: z :: _ => some ⟨x, y, z⟩
+    | _ => none
+  let facets := ((ps.drop 24).map fun d => facetDigits (toNat d)).filter (!·.isEmpty)
+  let used := (facets.flatten.eraseDups).length
+  let vs := vs.take used
+  let n : α := vs.foldl (fun acc _ => acc + 1) 0
+  let sum := vs.foldl (fun (acc : V3 α) v => ⟨acc.x + v.x, acc.y + v.y, acc.z + v.z⟩) V3.zero
+  let centroid := V3.smul (1 / n) sum
+  facets.mapM fun fc =>
+    match fc with
+    | i :: j :: k :: _ =>
+        match vs[i]?, vs[j]?, vs[k]? with
+        | some p1, some p2, some p3 =>
+            match planeFromPoints e1 e2 p1 p2 p3 with
+            | some [a, b, c, d] =>
+                let dist := centroid.sub p1
+                if (0:α) < dist.x * a + dist.y * b + dist.z * c then some ("p", [-a, -b, -c, -d], 1)
+                else some ("p", [a, b, c, d], 1)
+            | _ => none
+        | _, _, _ => none
+    | _ => none
 
 /-- `to_surfaces_macro` + `convert_mcnp_surface`: every facet converted, sides multiplied
 (`SurfaceCollection.join`) -/
-def convertMacro (e1 e2 : α) (mn : String) (ps : List α) : Option (List (TSurf α × Int)) := do
-  let parts ← macroParts mn ps
+def convertMacro (e1 e2 : α) (mn : String) (ps : List α) (toNat : α → Nat := fun _ => 0) :
+    Option (List (TSurf α × Int)) := do
+  let parts ← if mn == "arb" then arbParts e1 e2 toNat ps else macroParts mn ps
   let colls ← parts.mapM fun (m, q, side) => (convertCard e1 e2 m q).map fun coll => coll.map fun (t, s) => (t, s * side)
   pure colls.flatten
 
